@@ -79,9 +79,9 @@ Definition step_out_with (l : layout) (ex : bool) (w : world) (g : gen_call) : w
     (w, false)
   else
     (* direct path: shutil.rmtree(out_dir) when it exists — this takes the core with it when the
-       core lives inside this client's directory *)
-    let wiped := ex && inside l c in
-    let reg0 := if wiped then None else registry w in
+       core lives inside this client's directory, but the registry file is read before the
+       clean-up and written back afterwards (the alias classes are regenerated from it) *)
+    let reg0 := registry w in
     (* ExceptionsEmitter.emit *)
     let reg1 := if is_shared l then Some (aset (reg_or_empty reg0) c (errs_of g)) else reg0 in
     let al := if is_shared l then union_codes (reg_or_empty reg1) else errs_of g in
@@ -122,15 +122,5 @@ Definition works_b (w : world) : bool :=
 (* well-formed layout: the core package has at least one component (F11a is fixed: a core is
    recognised as shared at any depth, so this is no longer a finding guard) *)
 Definition wf_layout (l : layout) : bool := is_shared l.
-(* F11b: the client whose directory contains the core is regenerated through the direct path
-   while that directory exists (rmtree takes registry and aliases with it) *)
-Definition bad_F11b (l : layout) (w : world) (g : gen_call) : bool :=
-  inside l (g_client g) && dir_exists l w (g_client g) && g_force g.
-Fixpoint never (bad : layout -> world -> gen_call -> bool) (l : layout) (w : world) (h : list gen_call) : bool :=
-  match h with
-  | [] => true
-  | g :: r => negb (bad l w g) && never bad l (step l w g) r
-  end.
-Definition guard_F11b (l : layout) (h : list gen_call) : bool := never bad_F11b l init h.
 Definition guard (l : layout) (h : list gen_call) : bool :=
-  wf_layout l && guard_F11b l h.
+  wf_layout l.
